@@ -46,8 +46,11 @@ def configs(tier):
                         continue
                     out.append(dict(kind='growth', spec=sp, grid=g, vol=vol, safe=False, t0=t0, bound=2))
                     # a grid whose first point lies after the interface's initial time (the volume grows from the initial time on)
+                    # The lead is a whole number of volume steps (the oracles place volume steps on grid times) and short enough for
+                    # every division of the alphabet to fall inside the grid: a cell that divides before the first requested time is
+                    # reported with no rows at all, which the property does not speak about.
                     if g == 'u5' and (tier == 'thorough' or vol.get('z') in (None, -1.0)):
-                        for lead in ((0.25,) if tier == 'quick' else (0.25, 0.375, 1.0)):
+                        for lead in ((0.25,) if (tier == 'quick' or vol.get('cycle', 0) < 2.5) else (0.25, 0.5)):
                             out.append(dict(kind='growth', spec=sp, grid=g, vol=vol, safe=False, t0=t0, lead=lead, bound=2))
     return out
 
@@ -211,7 +214,7 @@ def run(ctx):
     ctx.rule = ('E1+E2: (i) constant volume V: every C05 network (all propensity types, orders 0..3) plus an order-0/order-3 mix, plain '
                 'and safe, through VolumeSSASimulator and through py_simulate_model(volume=V): the choice tree of the reference volume '
                 'sampler (volume-scaled closed-form rates) is explored to the cost bound and every trace replayed; (ii) growth and '
-                'division: StochasticTimeThresholdVolume (cycle times x scripted division-time noise) and StateDependentVolume x start times {0, 0.5} x grids that start at or after the initial time (lead 0, 0.25; thorough 0.375, 1) x grid '
+                'division: StochasticTimeThresholdVolume (cycle times x scripted division-time noise) and StateDependentVolume x start times {0, 0.5} x grids that start at or after the initial time (lead 0, 0.25; thorough also 0.5 for the slowest cycle) x grid '
                 'steps {0.125,0.25,0.5} x models with no reactions, with reactions, and whose propensity becomes zero mid-run: every '
                 'trace replayed, and the implementation\'s own output checked against the growth law (positive, non-decreasing, within '
                 'one step of V0*2^(t/cycle), ends at the first grid time at which division is reported). states = distinct (state, '
